@@ -4,7 +4,7 @@
 import ast
 import operator as _op
 
-from .absint import (RegexV, MatchV, V, Const, Sym, Err, TypeV, Atom, Top, Builtin, ModuleV, Func, ClassV, ListV, DictV, Obj, Bound,
+from .absint import (Aff, AffCmp, RegexV, MatchV, V, Const, Sym, Err, TypeV, Atom, Top, Builtin, ModuleV, Func, ClassV, ListV, DictV, Obj, Bound,
                      GenV, Exc, Splice, Raised, Unmodelled, TAG_TYPES, TAG_EXACT, NUMERIC, EXC_BASES, k)
 
 BUILTIN_NAMES = set(['isinstance', 'len', 'abs', 'all', 'any', 'sum', 'min', 'max', 'sorted', 'range', 'zip', 'enumerate',
@@ -197,6 +197,9 @@ def rich_compare(interp, name, a, b, text='', pure=False):
             return interp.call(m, [a])
         if name in ('eq', 'ne'):
             return Const(name == 'ne')
+    r = aff_compare(interp, name, a, b, text)
+    if r is not None:
+        return r
     for x, y, nm in ((a, b, name), (b, a, CMP_REFLECT[name])):
         if x.tag == 'err' and not pure:
             meth = error_dunder(interp, CMP_DUNDER[nm])
@@ -270,7 +273,70 @@ def binop(interp, op, a, b):
     return arith(interp, name, a, b)
 
 
+def _aff_of(v):
+    from fractions import Fraction
+    if isinstance(v, Aff):
+        return v
+    if isinstance(v, Const) and isinstance(v.value, (int, float)) and not isinstance(v.value, bool):
+        return Aff(0, Fraction(v.value), 'num')
+    return None
+
+
+def aff_arith(interp, name, a, b):
+    """Arithmetic when at least one operand is an affine form; None if not applicable."""
+    x, y = _aff_of(a), _aff_of(b)
+    if x is None or y is None or not (isinstance(a, Aff) or isinstance(b, Aff)):
+        return None
+    kinds = (x.kind, y.kind)
+    if name in ('add', 'sub'):
+        sign = 1 if name == 'add' else -1
+        if kinds == ('num', 'num'):
+            kind = 'num'
+        elif kinds == ('dt', 'td') or (kinds == ('td', 'dt') and name == 'add'):
+            kind = 'dt'
+        elif kinds == ('dt', 'dt') and name == 'sub':
+            kind = 'td'
+        elif kinds == ('td', 'td'):
+            kind = 'td'
+        else:
+            raise Raised(Exc('TypeError', 'unsupported operand kinds %s %s' % kinds))
+        return Aff(x.coeff + sign * y.coeff, x.const + sign * y.const, kind)
+    if name == 'mul':
+        if kinds == ('num', 'num') or 'td' in kinds and 'num' in kinds:
+            kind = 'td' if 'td' in kinds else 'num'
+            if x.is_const():
+                return Aff(y.coeff * x.const, y.const * x.const, kind)
+            if y.is_const():
+                return Aff(x.coeff * y.const, x.const * y.const, kind)
+            raise Unmodelled('product of two non-constant affine forms')
+        raise Raised(Exc('TypeError', 'unsupported operand kinds %s %s' % kinds))
+    if name == 'truediv':
+        if y.kind == 'num' and y.is_const() and x.kind in ('num', 'td'):
+            if y.const == 0:
+                raise Raised(Exc('ZeroDivisionError'))
+            return Aff(x.coeff / y.const, x.const / y.const, x.kind)
+        raise Unmodelled('division by a non-constant affine form')
+    raise Unmodelled('operator %s on affine forms' % name)
+
+
+def aff_compare(interp, name, a, b, text):
+    x, y = _aff_of(a), _aff_of(b)
+    if x is None or y is None or not (isinstance(a, Aff) or isinstance(b, Aff)):
+        return None
+    if x.kind != y.kind and not (x.kind in ('num',) and y.kind in ('num',)):
+        if name in ('eq', 'ne'):
+            return Const(name == 'ne')
+        raise Raised(Exc('TypeError', 'cannot order %s and %s' % (x.kind, y.kind)))
+    dc, d0 = x.coeff - y.coeff, x.const - y.const
+    if dc == 0:
+        return Const(CMP_PY[name](d0, 0))
+    return Const(interp.decide('%s*x%+g %s 0' % (dc, float(d0), name), [True, False], AffCmp(name, dc, d0)))
+
+
 def arith(interp, name, a, b):
+    r = aff_arith(interp, name, a, b)
+    if r is not None:
+        return r
     # dunder dispatch on package objects (forward, then reflected)
     if name in BIN_DUNDER:
         fwd, ref = BIN_DUNDER[name]
@@ -592,6 +658,24 @@ def call_type(interp, name, args, kwargs):
         return type_of(interp, args[0])
     if name == 'object':
         return Obj(ClassV(None, ast.ClassDef(name='object', bases=[], keywords=[], body=[], decorator_list=[])), {})
+    if name == 'datetime.datetime' and args and all(isinstance(a, Const) and isinstance(a.value, int) for a in args):
+        import datetime as _dt
+        try:
+            d = _dt.datetime(*[a.value for a in args])
+        except (ValueError, OverflowError):
+            raise Raised(Exc('ValueError', 'date out of range'))
+        from fractions import Fraction
+        delta = d - _dt.datetime(1970, 1, 1)
+        return Aff(0, Fraction(delta.days * 86400 + delta.seconds) + Fraction(delta.microseconds, 10 ** 6), 'dt')
+    if name == 'datetime.timedelta' and not args and set(kwargs) <= set(['seconds', 'days', 'milliseconds', 'minutes', 'hours']) and \
+            all(_aff_of(v) is not None for v in kwargs.values()):
+        from fractions import Fraction
+        scale = {'seconds': 1, 'days': 86400, 'milliseconds': Fraction(1, 1000), 'minutes': 60, 'hours': 3600}
+        tot = Aff(0, 0, 'td')
+        for kk, vv in kwargs.items():
+            a = _aff_of(vv)
+            tot = Aff(tot.coeff + a.coeff * scale[kk], tot.const + a.const * scale[kk], 'td')
+        return tot
     if name == 'datetime.datetime':
         if all(a.tag in NUMERIC for a in args):
             # constructor validates ranges
@@ -603,6 +687,8 @@ def call_type(interp, name, args, kwargs):
         return Atom('timedelta', list(args) + list(kwargs.values()), 'timedelta')
     if name == 'datetime.date':
         return Atom('date', args, 'date')
+    if name == 'datetime.time':
+        return Atom('time', list(args) + list(kwargs.values()), 'time')
     raise Unmodelled('constructor %s' % name)
 
 
@@ -1010,6 +1096,8 @@ def call_method(interp, base, attr, args, kwargs, text=''):
         if attr == 'timestamp':
             return Atom(attr, [base], 'float')
         raise Raised(Exc('AttributeError', attr))
+    if isinstance(base, Aff) and base.kind == 'td' and attr == 'total_seconds':
+        return Aff(base.coeff, base.const, 'num')
     if tag == 'timedelta' and attr == 'total_seconds':
         return Atom('total_seconds', [base], 'float')
     if tag in NUMERIC:
